@@ -601,6 +601,18 @@ class Run:
             if not ok_nodes or v2 != e2 or self.snapshot(t) != snap or t2._nodes is t._nodes or not (t2 == t):
                 rep.problem(family, "set_terminals does not rebind exactly the named terminals on a copy",
                             dict(case, kind="set_terminals", env=env), "set_terminals", True, v2, e2, "C09_set_terminals")
+            # chained rebinds: t1 = t.set_terminals(env); t2 = t1.set_terminals(env'); every tree keeps denoting what it denoted
+            # (also a copy, a subtree and a graft of the rebound tree, rebound again)
+            env_b = {nm: v + 17 for nm, v in env.items()}
+            v_t, v_t2 = t(), t2()
+            t3 = t2.set_terminals(**env_b)
+            t4 = t2.copy().set_terminals(**env_b)
+            t5 = t2.concat(0, t2.subtree(0)).set_terminals(**env_b)
+            e3 = ref_int(spec, env_b) if env else ref_int(spec)
+            rep.count(family + "-set_terminals-chain", (key, tuple(sorted(env.items()))))
+            if t() != v_t or t2() != v_t2 or t2() != e2 or any(x() != e3 for x in (t3, t4, t5)):
+                rep.problem(family, "a second set_terminals (on the rebound tree, its copy or a graft of it) changed what an earlier tree evaluates to",
+                            dict(case, kind="set_terminals", env=env, env_second=env_b), "set_terminals", True, [t(), t2(), t3(), t4(), t5()], [v_t, e2, e3, e3, e3], "C09_set_terminals")
             names = []
             p1 = self.cnodes(spec, C.cz, names)
             p2 = C.clist([f"FN {N(self.L.ifun.index(b))} {N(b._n_args)}" if isinstance(b, L.T.FunctionalNode)
